@@ -38,10 +38,31 @@ def run(tier, rng, C):
         cases.append({'id': cid2, 'line': V.stack_line(cid2, 'value', l2), 'show': V.stack_show(l2), 'nontrivial': False,
                       'twin': cid})
 
+    # long chains of whole-value references (head -> l1 -> ... -> target), written head-first or target-first:
+    # every link renders to the target's value as long as the chain stays within the documented depth of 64
+    for i in range(24 if tier == 'quick' else 400):
+        ln = rng.choice([rng.randint(2, 30), rng.randint(31, 50), rng.randint(51, 63)])
+        tgt = rng.choice([I(7), S('txt'), B(False), N, ('l', [I(1), S('two')]), M(('x', I(1)), ('y', ('l', [S('z')])))])
+        es = [(S('l%d' % ln), tgt)] + [(S('l%d' % j), S('${l%d}' % (j + 1))) for j in range(ln)]
+        if i % 3 == 0:
+            es.reverse()
+        elif i % 3 == 1:
+            rng.shuffle(es)
+        layers = [('m', es)]
+        cid = C.case_id('c', i)
+        cases.append({'id': cid, 'line': V.stack_line(cid, 'value', layers), 'show': 'chain of %d whole-value references to %s' % (ln, show(tgt)),
+                      'nontrivial': True, 'must_render': True})
+        meta[cid] = {'l%d' % j: [('whole', 'l%d' % ln)] for j in range(ln)}
+
     def oracle(cases, mobs, iobs):
         fails = []
         for c in cases:
             o = iobs.get(c['id'], '')
+            if c.get('must_render') and obs_kind(o) != 'ok':
+                fails.append({'key': 'chain-rejected', 'severity': 'fail', 'show': c['show'], 'lines': [c['line']],
+                              'reason': 'an acyclic chain of whole-value references within the depth limit did not render',
+                              'impl': C.describe(o), 'size': len(c['line'])})
+                continue
             if 'twin' in c:
                 o1 = iobs.get(c['twin'], '')
                 a_ok, b_ok = obs_kind(o) == 'ok', obs_kind(o1) == 'ok'
@@ -72,6 +93,6 @@ def run(tier, rng, C):
         return fails
     rule = ('%d acyclic-by-rank reference graphs over 2-8 keys (whole-value, embedded, list element, mapping value, layer, nested '
             'path references; targets of every kind incl. sub-paths) each with a twin whose entries are written in another '
-            'order, plus missing-path cases; non-trivial = >= 2 referencing keys; oracles: out[k] == out@path on the '
+            'order, plus missing-path cases, plus chains of 2-63 whole-value references to targets of every kind; non-trivial = >= 2 referencing keys; oracles: out[k] == out@path on the '
             'implementation\'s own output, twin equality, model/impl comparison' % n)
     return C.standard_run(cases, rule, key_fn=lambda c, m, i, r: 'model-impl-differ', extra_oracle=oracle)
